@@ -66,7 +66,7 @@ impl Point {
 
 #[derive(Clone, Debug, Serialize, Deserialize)]
 struct Cancel {
-    /// Position in the delivery list before which the cancellation happens (mapped onto 0..=len).
+    /// Position in the delivery list before which the cancellation happens (mapped onto 1..=len).
     pos: u16,
     /// The future is dropped at its `nth` suspension inside this store call; if the call is left
     /// earlier, at the first suspension after it.
@@ -106,6 +106,8 @@ struct Env {
     template: Template,
     base: PathBuf,
     k_c12_open: bool,
+    /// Extra runs of a case in `--replay` mode.
+    replay_repeats: u32,
 }
 
 /// Hand-drives one `next` future until it is suspended at the requested await point (or beyond
@@ -185,7 +187,8 @@ async fn run_case(env: &Env, case: &Case, dir: &CaseDir, stats: &mut Stats) -> R
     let store = ProbeStore::new(env.template.open(dir, "c12", 4).await);
     let orderer: Orderer<Item, Hash, ProbeStore> = Orderer::new(store.clone());
     let n_del = res.deliveries.len();
-    let mut cancels: Vec<(usize, Point, u8)> = case.cancels.iter().map(|c| (idx(c.pos, n_del + 1), c.at, c.nth)).collect();
+    // Cancellations happen after at least one delivery (before the first one the queue is empty).
+    let mut cancels: Vec<(usize, Point, u8)> = case.cancels.iter().map(|c| (if n_del == 0 { 0 } else { 1 + idx(c.pos, n_del) }, c.at, c.nth)).collect();
     cancels.sort_by_key(|c| c.0);
 
     let mut delivered: BTreeSet<usize> = BTreeSet::new();
@@ -232,7 +235,7 @@ async fn run_case(env: &Env, case: &Case, dir: &CaseDir, stats: &mut Stats) -> R
         }
         delivered.insert(i);
 
-        if case.graph.drains.get(pos).copied().unwrap_or(false) || pos + 1 == n_del {
+        if case.graph.drains.get(pos).copied().unwrap_or(false) {
             loop {
                 if store.queue_len().await? == 0 {
                     break;
@@ -284,6 +287,19 @@ async fn run_case(env: &Env, case: &Case, dir: &CaseDir, stats: &mut Stats) -> R
 }
 
 fn check(env: &Env, case: &Case) -> CaseResult {
+    // Where a dropped future lands inside a store call is timing-dependent; an explicit `--replay`
+    // therefore runs the saved case repeatedly and reports the first failure.
+    let mut last = check_once(env, case);
+    for _ in 0..env.replay_repeats {
+        if last.is_err() {
+            break;
+        }
+        last = check_once(env, case);
+    }
+    last
+}
+
+fn check_once(env: &Env, case: &Case) -> CaseResult {
     let dir = CaseDir::new(&env.base);
     let rt = fx::runtime();
     let mut stats = Stats::default();
@@ -332,7 +348,13 @@ fn case(max_items: usize) -> impl Strategy<Value = Case> {
         graph(max_items),
         prop::collection::vec((any::<u16>(), point(), 1u8..=3).prop_map(|(pos, at, nth)| Cancel { pos, at, nth }), 1..4),
     )
-        .prop_map(|(graph, cancels)| Case { graph, cancels })
+        .prop_map(|(mut graph, cancels)| {
+            // Keep items in the ready queue between deliveries: drain rarely before the end.
+            for (j, d) in graph.drains.iter_mut().enumerate() {
+                *d = *d && j % 3 == 2;
+            }
+            Case { graph, cancels }
+        })
 }
 
 /// Fixed tiny histories with one cancellation at every position and every poll count.
@@ -342,7 +364,7 @@ fn sweep_domain() -> Vec<Case> {
     let mut out = Vec::new();
     for items in graphs {
         let n = items.len();
-        for pos in 0..=n {
+        for pos in 1..=n {
             // Cancellation points inside the K-C12 signature first, so that the case reported on a
             // tree where K-C12 is not listed lands there reliably.
             for (at, nth) in [
@@ -367,9 +389,9 @@ fn sweep_domain() -> Vec<Case> {
                         extras: vec![],
                         drains: vec![false; n],
                     },
-                    // idx(raw, n + 1) == pos
+                    // 1 + idx(raw, n) == pos
                     cancels: vec![Cancel {
-                        pos: (((pos as u32) << 16) / (n as u32 + 1) + 1).min(65535) as u16,
+                        pos: ((((pos - 1) as u32) << 16) / (n as u32) + 1).min(65535) as u16,
                         at,
                         nth,
                     }],
@@ -441,6 +463,7 @@ pub fn run(mut ctx: Ctx) -> ! {
         template: Template::build(&base),
         base: base.clone(),
         k_c12_open: ctx.is_open("K-C12"),
+        replay_repeats: if ctx.replay.is_some() { 20 } else { 0 },
     };
     ctx.assume("file-backed store with 4 connections: cancelling a query on the one-connection in-memory store drops the whole database (fixture artefact, DESIGN.md B4)");
     ctx.assume("an item counts as returned only when a next() call completed with it");
@@ -452,7 +475,7 @@ pub fn run(mut ctx: Ctx) -> ! {
 
     ctx.run_exhaustive(
         "sweep_every_await_point",
-        "three fixed histories (1, 2, 3 items), one cancellation before each delivery position or at the end, every await point of next() (unpolled, 1st-3rd suspension in begin / take_next_ready, 1st-2nd in commit / get_operation, parked on the notifier); non-trivial = the dropped future was suspended inside next() while an item was in the ready queue",
+        "three fixed histories (1, 2, 3 items), one cancellation after each delivery, every await point of next() (unpolled, 1st-3rd suspension in begin / take_next_ready, 1st-2nd in commit / get_operation, parked on the notifier); non-trivial = the dropped future was suspended inside next() while an item was in the ready queue",
         sweep_domain(),
         |c| check(&env, c),
     );
